@@ -581,6 +581,21 @@ class FnTranslator:
             vals = [self.coerce(self.expr(a, env), ty) for a, ty in zip(n.args, pos)]
             vals += [self.coerce(self.expr(given[kw], env), ty) for kw, ty in slots if kw is not None]
             return ('(%s %s)' % (env[fkey][0], ' '.join(vals)), rty)
+        if isinstance(f, ast.Attribute) and env.get('.' + f.attr, ('', ''))[1].startswith('F:') \
+                and not (isinstance(f.value, ast.Name) and f.value.id in ('np', 'numpy', 'math', 'pd', 'pandas')):
+            # [loop ties C15] a parameter keyed '.<m>' of function type: the method <m> of an opaque object (e.g. a table read
+            # as an id), as a PURE function of the object (first slot) and the call's arguments (the remaining slots)
+            slots, rty = fn_type(env['.' + f.attr][1])
+            pos = [ty for kw, ty in slots if kw is None]
+            kws = {kw: ty for kw, ty in slots if kw is not None}
+            if not pos or len(n.args) != len(pos) - 1 or any(isinstance(a, ast.Starred) for a in n.args) \
+                    or sorted(k.arg or '**' for k in n.keywords) != sorted(kws):
+                raise Refuse('%s: method .%s is called with other arguments than its declared type %s'
+                             % (self.rel, f.attr, env['.' + f.attr][1]))
+            given = {k.arg: k.value for k in n.keywords}
+            vals = [self.coerce(self.expr(a, env), ty) for a, ty in zip([f.value] + list(n.args), pos)]
+            vals += [self.coerce(self.expr(given[kw], env), ty) for kw, ty in slots if kw is not None]
+            return ('(%s %s)' % (env['.' + f.attr][0], ' '.join(vals)), rty)
         if getattr(self, 'columns', None) and fkey in ('np.apply_along_axis', 'numpy.apply_along_axis') and not n.keywords \
                 and len(n.args) == 3:
             # [loop ties C05] np.apply_along_axis(F, 0, M) on a declared column matrix M (see `columns`): entry j of the result
